@@ -296,6 +296,7 @@ def step_key(clause: str, c: dict, k: int) -> str:
     if clause == "C05_Refused":
         import re as _r
         msg = (c["r"]["steps"][k].get("exc") or {}).get("msg", "")
+        msg = _r.sub(r"'[^']*'|\"[^\"]*\"", "'_'", msg)          # names are the generator's choice, not part of the symptom
         key += "|" + c["r"]["steps"][k]["res"] + ":" + _r.sub(r"[:=].*$", "", msg)[:50].strip()
     elif clause.split(":")[0] in ("C05_Valid", "C05_Shape", "C09_Addressing", "C08_ErrorClass"):
         w = pre.get("wrap", [])
